@@ -1,4 +1,6 @@
 import RtenVerif.Lemmas.Ctc
+import RtenVerif.Lemmas.CtcBound
+import RtenVerif.Lemmas.CtcExact
 
 /-!
 # C39 — CTC decoding returns distinct, correctly scored hypotheses
@@ -12,8 +14,12 @@ Property theorems over `RtenVerif.Model.Ctc` (model of `/repo/src/ctc.rs` after 
   `Ops α` satisfying the single law `isZero (add zero zero)` (which is exactly the
   "all −inf" special case of `log_sum_exp`), hence independent of float rounding.
   False for the code before the fix (`c39_beam_distinct_old_false`).
-* **T3** (see `Props/C39Exact.lean`) score ≤ exact total probability, over exact `Nat`
-  arithmetic.
+* **T3** over exact `Nat` arithmetic (`natOps`): every state's `(pb, pnb)` is bounded by
+  the (blank-ending, non-blank-ending) parts of the total weight of all alignments of its
+  label sequence, hence score ≤ exact total probability (`exactTotal`, a brute-force sum
+  over all `L^T` alignments).  Float `log_sum_exp` rounding is outside the model (tested by
+  the harness with a tolerance).  S4 (equality when nothing is pruned) is not proved; the
+  harness tests it against brute force.
 -/
 namespace RtenVerif.Ctc
 
@@ -285,5 +291,107 @@ example : (beamLoopOld natOps 10 3 (initBeam natOps) 0 uniform23).map
     (fun s => (labels s.pre, s.pb + s.pnb)) =
     [([1], 3), ([2], 3), ([], 1), ([1, 2], 1), ([2, 1], 1), ([1], 0), ([2], 0), ([1, 1], 0),
       ([2, 2], 0)] := by decide
+
+/-! ## "Finite scores" (partial) -/
+
+/-- **C39 finite scores, `_partial`.**  Every state created by a regular selection step
+(i.e. unless *every* extension has zero probability and the fallback keeps state 0) has a
+non-zero score (`score != -inf`), for every carrier.  Not proved: that the fallback never
+fires when every row has a non-zero entry (the harness checks "all rows have a positive
+weight ⇒ every returned score is finite" on the real code for every case). -/
+theorem c39_step_scores_nonzero_partial {α} (ops : Ops α) (B L : Nat) (beam : List (BState α))
+    (pos : Nat) (row : List α)
+    (hne : ((candidates ops L beam.length (extendAll ops L beam row)).foldl (pushExt ops B) []).isEmpty
+      = false) :
+    ∀ st ∈ beamStep ops B L beam pos row, ops.isZero (hypOf ops st).score = false := by
+  intro st hst
+  unfold beamStep selectTopk at hst
+  simp only [hne, Bool.false_eq_true, if_false, List.mem_map] at hst
+  obtain ⟨e, he, rfl⟩ := hst
+  obtain ⟨_, q2⟩ := foldl_pushExt_spec ops B
+    (candidates ops L beam.length (extendAll ops L beam row)) []
+    (by simp) (by simp) (candidates_keys_nodup ops L beam.length _)
+  rcases q2 e he with h | ⟨h, hz⟩
+  · cases h
+  · obtain ⟨_, _, hp⟩ := mem_candidates ops L beam.length _ e h
+    simp only [hypOf, mkState]
+    rw [← hp]; exact hz
+
+/-! ## T3 — scores never exceed the exact total probability (exact arithmetic) -/
+
+/-- **C39.T3 (invariant form)** After `decode_beam_impl`, every state's `prob_blank` /
+`prob_no_blank` is at most the total weight of the alignments of its label sequence that end
+in a blank / in a non-blank (`dpRev`, the textbook prefix recursion, proved equal to the
+brute-force sums in `Lemmas/CtcExact.lean`).  For every matrix, beam width and label count. -/
+theorem c39_beam_parts_le (B L : Nat) (rows : List (List Nat)) (beam : List (BState Nat))
+    (h : decodeBeamImpl natOps B L rows = some beam) :
+    ∀ st ∈ beam, st.pb ≤ (dpRev rows.reverse (labels st.pre)).1 ∧
+      st.pnb ≤ (dpRev rows.reverse (labels st.pre)).2 := by
+  have hinit : Inv [] (initBeam natOps) := by
+    intro st hst
+    simp only [initBeam, List.mem_singleton] at hst
+    subst hst
+    simp [dpRev, labels, natOps]
+  unfold decodeBeamImpl at h
+  split at h
+  · rename_i he
+    cases h
+    have : rows = [] := by simpa using he
+    subst this
+    exact hinit
+  · split at h
+    · cases h
+    · cases h
+      have := beamLoop_inv B L rows (initBeam natOps) 0 [] hinit (initBeam_distinct natOps)
+      have h2 : Inv rows.reverse (beamLoop natOps B L (initBeam natOps) 0 rows) := by
+        simpa using this
+      exact h2
+
+/-- **C39.T3** Over exact arithmetic the score of every state returned by
+`decode_beam_impl` is at most the exact total probability of its label sequence — the sum of
+the weights of **all** `L^T` alignments that collapse to it — for every well-shaped matrix,
+every beam width and label count. -/
+theorem c39_beam_score_le_exact (B L : Nat) (rows : List (List Nat))
+    (hw : ∀ r ∈ rows, r.length = L) (beam : List (BState Nat))
+    (h : decodeBeamImpl natOps B L rows = some beam) :
+    ∀ st ∈ beam, (hypOf natOps st).score ≤ exactTotal L rows (labels st.pre) := by
+  intro st hst
+  have hparts := c39_beam_parts_le B L rows beam h st hst
+  have hnz : NZ beam := by
+    unfold decodeBeamImpl at h
+    split at h
+    · cases h; intro st hst m hm; simp [initBeam] at hst; subst hst; simp [labels] at hm
+    · split at h
+      · cases h
+      · cases h
+        apply beamLoop_nz
+        intro st hst m hm; simp [initBeam] at hst; subst hst; simp [labels] at hm
+  rw [← dpRev_eq_exactTotal L rows hw (labels st.pre) (hnz st hst)]
+  simp only [hypOf, natOps]
+  omega
+
+/-- **C39.T3 (n-best)** The same bound for the hypotheses of `decode_beam_nbest`, for every
+`beam_size` and `n_best`. -/
+theorem c39_nbest_score_le_exact (B N L : Nat) (rows : List (List Nat))
+    (hw : ∀ r ∈ rows, r.length = L) (hs : List (Hyp Nat))
+    (h : decodeBeamNbest natOps B N L rows = some hs) :
+    ∀ hy ∈ hs, hy.score ≤ exactTotal L rows (labels hy.steps) := by
+  unfold decodeBeamNbest at h
+  cases hb : decodeBeamImpl natOps B L rows with
+  | none => rw [hb] at h; cases h
+  | some beam =>
+    rw [hb] at h
+    simp only [Option.map_some, Option.some.injEq] at h
+    subst h
+    intro hy hhy
+    obtain ⟨st, hst, rfl⟩ := List.mem_map.mp hhy
+    exact c39_beam_score_le_exact B L rows hw beam hb st (List.mem_of_mem_take hst)
+
+/-- Non-vacuity and strictness: with beam 1 on `[[1,2],[2,1]]` the alignment `0 1` of `[1]`
+is pruned (the state `[]` is dropped after the first step), so the score 6 is strictly below
+the exact total 7. -/
+example : (decodeBeamNbest natOps 1 1 2 [[1, 2], [2, 1]]).map
+    (·.map fun h => (labels h.steps, h.score, exactTotal 2 [[1, 2], [2, 1]] (labels h.steps))) =
+    some [([1], 6, 7)] := by decide
 
 end RtenVerif.Ctc
